@@ -217,7 +217,7 @@ pub fn run_fs(sess: &Session, sel: &[usize]) -> Result<Vec<(u128, Option<Vec<u8>
         let mut out = Vec::new();
         for o in &sess.objs {
             if let Some(t) = o.toi {
-                let rel = location(o.idx).strip_prefix("file:///").unwrap().to_string();
+                let rel = location(o.p.loc.unwrap_or(o.idx)).strip_prefix("file:///").unwrap().to_string();
                 out.push((t, std::fs::read(dir.join(rel)).ok()));
             }
         }
